@@ -13,6 +13,7 @@ import Ggql.Driver.C10
 import Ggql.Driver.C11
 import Ggql.Driver.C12
 import Ggql.Driver.C13
+import Ggql.Driver.C17
 import Ggql.Driver.C14
 import Ggql.Driver.C15
 import Ggql.Driver.C16
@@ -60,6 +61,7 @@ def handleLine (tb : Tables) (line : String) : String :=
     | "C11" => C11.handle tb c impl
     | "C12" => C12.handle tb c impl
     | "C13" => C13.handle tb c impl
+    | "C17" => C17.handle tb c impl
     | "C14" => C14.handle tb c impl
     | "C15" => C15.handle tb c impl
     | "C16" => C16.handle tb c impl
@@ -68,7 +70,7 @@ def handleLine (tb : Tables) (line : String) : String :=
     | "C20" => C20.handle tb c impl
     | _ => "bad-op"
 
-def allFlags (tb : Tables) : List (String × List (String × Bool)) := [("C01", C01.flags tb), ("C04", C04.flags tb), ("C05", C05.flags tb), ("C06", C06.flags tb), ("C07", C07.flags tb), ("C08", C08.flags tb), ("C09", C09.flags tb), ("C10", C10.flags tb), ("C11", C11.flags tb), ("C12", C12.flags tb), ("C13", C13.flags tb), ("C14", C14.flags tb), ("C15", C15.flags tb), ("C16", C16.flags tb), ("C18", C18.flags tb), ("C19", C19.flags tb), ("C20", C20.flags tb)]
+def allFlags (tb : Tables) : List (String × List (String × Bool)) := [("C01", C01.flags tb), ("C04", C04.flags tb), ("C05", C05.flags tb), ("C06", C06.flags tb), ("C07", C07.flags tb), ("C08", C08.flags tb), ("C09", C09.flags tb), ("C10", C10.flags tb), ("C11", C11.flags tb), ("C12", C12.flags tb), ("C13", C13.flags tb), ("C14", C14.flags tb), ("C15", C15.flags tb), ("C16", C16.flags tb), ("C17", C17.flags tb), ("C18", C18.flags tb), ("C19", C19.flags tb), ("C20", C20.flags tb)]
 
 partial def loop (tb : Tables) (h : IO.FS.Stream) (out : IO.FS.Stream) : IO Unit := do
   let line ← h.getLine
